@@ -289,7 +289,7 @@ class CoseSign1Payload(SuitUnion):
     _metadata = Metadata(
         children=[
             SuitNull,
-            SuitCwtPayload,
+            cbstr(SuitCwtPayload),
         ]
     )
 
